@@ -372,7 +372,7 @@ EXTRA6 = {
     'C16': 'Arithmetic with self.E_shift occurs only in run(), on the returned local: the shift is removed exactly once.',
     'C17': 'A loader that rebuilds the object through cls(...) loads every saved attribute that all __init__ set to a constant; a loader that delegates to super().from_hdf5 does not re-derive an attribute the super loader restored (HDF5-no-overwrite).',
     'C18': 'A checkpoint emitted at the start of an iteration is skipped in the first iteration of the call by a flag local to the call, not by restored engine state (RESUME-checkpoint-guard).',
-    'C19': 'The pair tables of DualSquare (toric_code.py) are decided like those of lattice.py (constant folding incl. comprehensions and np.eye).',
+    'C19': 'A property setter that replaces the base setter drops every cache the base setter drops (SETTER-invalidate). The pair tables of DualSquare (toric_code.py) are decided like those of lattice.py (constant folding incl. comprehensions and np.eye).',
 }
 for _k, _v in EXTRA6.items():
     EXTRA[_k] = (EXTRA.get(_k, '') + ' ' + _v).strip()
